@@ -183,7 +183,9 @@ Script2 ==
     [e |-> "call", fn |-> "psig", h |-> 0, mask |-> o.x2.mask, disp |-> o.x2.disp],
     [e |-> "call", fn |-> "new", h |-> 2], [e |-> "ret", r |-> 1],
     [StartRec EXCEPT !.h = 2], Exp2>>
-Script == IF Family = "env2" THEN Script2 ELSE <<CfgRec, [e |-> "call", fn |-> "new", h |-> 1], [e |-> "ret", r |-> 1], StartRec, Expected>>
+\* "no side effect" of a request rejected up front includes the handle: it is still not started afterwards
+AfterReject == IF Family = "options" /\ Verdict(o).v = "reject" THEN <<[e |-> "call", fn |-> "pid", h |-> 1], [e |-> "ret", r |-> EINVAL, mon |-> <<>>]>> ELSE <<>>
+Script == IF Family = "env2" THEN Script2 ELSE <<CfgRec, [e |-> "call", fn |-> "new", h |-> 1], [e |-> "ret", r |-> 1], StartRec, Expected>> \o AfterReject
 
 Next == phase = "pick" /\ phase' = "done" /\ UNCHANGED <<o, k>>
         /\ IF Family = "tables" THEN PrintT(<<"BEH", ToJson(TableRow(o))>>) ELSE PrintT(<<"BEH", ToJson(Script)>>)
